@@ -23,6 +23,10 @@ pub struct BoundingBox { pub x1: R32, pub y1: R32, pub x2: R32, pub y2: R32 }
 //@end
 //@item src/lib.rs :: struct TransformConfig
 //@end
+impl TransformConfig {
+    /// the built-in defaults (loop-limit 1000, var-limit 1024, depth-limit 100, ...): just some configuration here
+    #[verifier::external_body] pub fn default() -> TransformConfig { unimplemented!() }
+}
 impl Clone for TransformConfig { #[verifier::external_body] fn clone(&self) -> (r: Self) ensures r == *self { unimplemented!() } }
 //@item src/element.rs :: struct SvgElement
 //@end
